@@ -26,6 +26,8 @@ inductive Cmd (S : Type) where
   | conv (w a f : String) (sr sc : Nat)
   | cop (kind : Nat) (w : String) (args : List String)
   | backward (v : String) (seed : Option String)
+  /-- the seed passed as a clone of the named handle (shares its storage) instead of a copy -/
+  | backwardc (v : String) (seed : String)
   | grad (v : String) | takegrad (w v : String) | cleargrad (v : String) | setgrad (v w : String)
   | show (v : String) | idx (v : String) (i : List Nat) | idxflat (v : String) (i : Nat)
   | eq (a b : String) | same (a b : String) | samegrad (a b : String)
@@ -167,6 +169,11 @@ def exec (σ : State S) (c : Cmd S) : R (State S × Out S) :=
       | some s => do let sh ← σ.get s; pure (some (σ.tensorOf sh))
       | none => pure none
     let σ' ← σ.backward h s
+    pure (σ', .ok)
+  | .backwardc v seed => do
+    let h ← σ.get v
+    let sh ← σ.get seed
+    let σ' ← σ.backward h (some (σ.tensorOf sh))
     pure (σ', .ok)
   | .grad v => do
     let h ← σ.get v
